@@ -46,6 +46,8 @@ def repo_path():
 
 
 def setup_repo_import():
+    import logging
+    logging.disable(logging.CRITICAL)      # library log output is not part of any oracle
     rp = repo_path()
     if rp not in sys.path:
         sys.path.insert(0, rp)
